@@ -719,17 +719,6 @@ theorem itoa_ne_empty (v : Int) : itoa v ≠ "" := by
   · rw [itoa_nonneg (by omega), ← String.toList_inj, String.toList_ofList] at h
     simp at h
 
-theorem incr_inRange {m : Int} (h : InRange m) : InRange (incr m) := by
-  unfold incr InRange at *
-  split <;> omega
-
-theorem incr_eq {m : Int} (h : m + 1 < 2 ^ 63) : incr m = m + 1 := by
-  unfold incr
-  split
-  · omega
-  · rfl
-
-
 /-! ## extractTags -/
 
 theorem extractTags_some (raw : String) :
@@ -833,29 +822,433 @@ theorem plencTag_norm (n : String) : (plencTag n).norm = plencTag n := by
 
 theorem plenc_ne_empty : ("plenc" : String) ≠ "" := by decide
 
-/-- re-reading a tag the tool has just written. -/
+
+/-! ## Parse on the old text followed by a further tag (main.go `appendTag`) -/
+
+def AllSpace (l : List Char) : Prop := ∀ c ∈ l, c = ' '
+
+theorem dropWhile_eq_nil {α} (p : α → Bool) : ∀ (l : List α), l.dropWhile p = [] → ∀ x ∈ l, p x = true := by
+  intro l
+  induction l with
+  | nil => intro _ x hx; simp at hx
+  | cons a r ih =>
+    intro h x hx
+    rw [List.dropWhile_cons] at h
+    split at h
+    · rename_i hp
+      simp only [List.mem_cons] at hx
+      rcases hx with rfl | hx
+      · exact hp
+      · exact ih h x hx
+    · simp at h
+
+theorem dropWhile_head {α} (p : α → Bool) : ∀ (l : List α) (a : α) (t : List α),
+    l.dropWhile p = a :: t → p a = false := by
+  intro l
+  induction l with
+  | nil => intro a t h; simp at h
+  | cons x r ih =>
+    intro a t h
+    rw [List.dropWhile_cons] at h
+    split at h
+    · exact ih a t h
+    · rename_i hp
+      injection h with h1 _
+      subst h1
+      simpa using hp
+
+theorem scanPair_spaces_append {sp : List Char} (h : AllSpace sp) (rest : List Char) :
+    scanPair (sp ++ rest) = scanPair rest := by
+  unfold scanPair
+  rw [List.dropWhile_append_of_pos (fun c hc => by simp [h c hc])]
+
+/-- the canonical fuel -/
+def parseFull (cs : List Char) : Out Tags := parseLoop (cs.length + 1) cs
+
+theorem parseLoop_fuel : ∀ (n n' : Nat) (cs : List Char), cs.length < n → cs.length < n' →
+    parseLoop n cs = parseLoop n' cs := by
+  intro n
+  induction n with
+  | zero => intro n' cs h; simp at h
+  | succ n ih =>
+    intro n' cs h h'
+    cases n' with
+    | zero => simp at h'
+    | succ n' =>
+      rw [parseLoop, parseLoop]
+      split
+      · rfl
+      · rfl
+      · rename_i k b rest hs
+        have := (scanPair_pair hs).2
+        rw [ih n' rest (by omega) (by omega)]
+
+theorem parseLoop_eq_full {n : Nat} {cs : List Char} (h : cs.length < n) : parseLoop n cs = parseFull cs :=
+  parseLoop_fuel _ _ _ h (Nat.lt_succ_self _)
+
+theorem extractTags_eq_full (raw : String) : extractTags (some raw) = parseFull raw.toList :=
+  extractTags_some raw
+
+theorem parseFull_spaces_append {sp : List Char} (h : AllSpace sp) (rest : List Char) :
+    parseFull (sp ++ rest) = parseFull rest := by
+  unfold parseFull
+  rw [parseLoop, parseLoop, scanPair_spaces_append h]
+  split
+  · rfl
+  · rfl
+  · rename_i k b rest' hs
+    have := (scanPair_pair hs).2
+    rw [parseLoop_fuel (sp ++ rest).length rest.length rest' (by simp; omega) this]
+
+theorem parseFull_done {cs : List Char} (h : scanPair cs = .done) : parseFull cs = .ok [] := by
+  unfold parseFull; rw [parseLoop, h]
+
+theorem parseFull_pair {cs k b rest v name : List Char} {opts : List (List Char)} {ts : Tags}
+    (hs : scanPair cs = .pair k b rest) (hv : unquoteBody b = .ok v)
+    (hsp : splitCommaAll v = name :: opts) (hr : parseFull rest = .ok ts) :
+    parseFull cs = .ok (⟨String.ofList k, String.ofList name, opts.map String.ofList⟩ :: ts) := by
+  unfold parseFull
+  rw [parseLoop, hs]
+  simp only [hv, hsp]
+  rw [parseLoop_eq_full (scanPair_pair hs).2, hr]
+
+theorem parseFull_inv {cs : List Char} {ts : Tags} (h : parseFull cs = .ok ts) :
+    (scanPair cs = .done ∧ ts = []) ∨
+    ∃ k b rest v name opts ts', scanPair cs = .pair k b rest ∧ unquoteBody b = .ok v ∧
+      splitCommaAll v = name :: opts ∧ parseFull rest = .ok ts' ∧
+      ts = ⟨String.ofList k, String.ofList name, opts.map String.ofList⟩ :: ts' := by
+  unfold parseFull at h
+  rw [parseLoop] at h
+  split at h
+  · rename_i hs; injection h with h; exact Or.inl ⟨hs, h.symm⟩
+  · simp at h
+  · rename_i k b rest hs
+    split at h
+    · simp at h
+    · simp at h
+    · rename_i v hv
+      split at h
+      · simp at h
+      · rename_i name opts hsp
+        split at h
+        · rename_i ts' hts'
+          injection h with h
+          rw [parseLoop_eq_full (scanPair_pair hs).2] at hts'
+          exact Or.inr ⟨k, b, rest, v, name, opts, ts', hs, hv, hsp, hts', h.symm⟩
+        · rename_i hne
+          cases hp : parseLoop cs.length rest with
+          | ok ts' => exact absurd hp (hne ts')
+          | _ => rw [hp] at h; simp at h
+
+theorem scanKey_ne_done (t : List Char) : scanKey t ≠ .done := by
+  unfold scanKey
+  simp only
+  split
+  · simp
+  · unfold scanAfterKey
+    split
+    · simp
+    · simp
+    · split
+      · simp
+      · split
+        · simp
+        · split <;> simp
+
+theorem scanPair_done {cs : List Char} (h : scanPair cs = .done) : AllSpace cs := by
+  unfold scanPair at h
+  simp only at h
+  split at h
+  · rename_i he
+    have : List.dropWhile (fun c => decide (c = ' ')) cs = [] := by simpa [List.isEmpty_iff] using he
+    intro c hc
+    simpa using dropWhile_eq_nil _ cs this c hc
+  · exact absurd h (scanKey_ne_done _)
+
+/-- the quoted-string scan only looks at the text up to the closing quote. -/
+theorem scanQ_local : ∀ (r : List Char) (esc : Bool) (b rest : List Char),
+    scanQ esc r = some (b, rest) →
+    ∃ q, r = q ++ '"' :: rest ∧ ∀ y, scanQ esc (q ++ '"' :: y) = some (b, y) := by
+  intro r
+  induction r with
+  | nil => intro esc b rest h; simp [scanQ] at h
+  | cons c r ih =>
+    intro esc b rest h
+    cases esc
+    · rw [scanQ] at h
+      split at h
+      · rename_i hc
+        injection h with h; injection h with h1 h2
+        subst h1; subst h2; subst hc
+        exact ⟨[], rfl, fun y => by simp [scanQ]⟩
+      · rename_i hc
+        split at h
+        · rename_i hb
+          simp only [Option.map_eq_some_iff] at h
+          obtain ⟨p, hp, he⟩ := h
+          injection he with h1 h2
+          obtain ⟨q, hq, hy⟩ := ih true p.1 p.2 hp
+          subst h2
+          refine ⟨c :: q, by rw [hq]; rfl, fun y => ?_⟩
+          simp only [List.cons_append]
+          rw [scanQ]
+          rw [if_neg hc, if_pos hb, hy y]
+          simp only [Option.map_some, h1]
+        · rename_i hb
+          simp only [Option.map_eq_some_iff] at h
+          obtain ⟨p, hp, he⟩ := h
+          injection he with h1 h2
+          obtain ⟨q, hq, hy⟩ := ih false p.1 p.2 hp
+          subst h2
+          refine ⟨c :: q, by rw [hq]; rfl, fun y => ?_⟩
+          simp only [List.cons_append]
+          rw [scanQ]
+          simp only [hc, hb, ↓reduceIte, hy y, Option.map_some, h1]
+    · rw [scanQ] at h
+      simp only [Option.map_eq_some_iff] at h
+      obtain ⟨p, hp, he⟩ := h
+      injection he with h1 h2
+      obtain ⟨q, hq, hy⟩ := ih false p.1 p.2 hp
+      subst h2
+      refine ⟨c :: q, by rw [hq]; rfl, fun y => ?_⟩
+      simp only [List.cons_append]
+      rw [scanQ]
+      simp only [hy y, Option.map_some, h1]
+
+theorem scanPair_key_colon {key : List Char} (hk : KeyChars key) {r b rest : List Char}
+    (hq : scanQuoted r = some (b, rest)) :
+    scanPair (key ++ ':' :: '"' :: r) = .pair key b rest := by
+  obtain ⟨hne, hall⟩ := hk
+  cases key with
+  | nil => exact absurd rfl hne
+  | cons k0 kr =>
+    have hk0 : keyChar k0 = true := hall k0 (by simp)
+    have hsp : ¬ k0 = ' ' := keyChar_ne_space hk0
+    unfold scanPair
+    simp only [List.cons_append, List.dropWhile_cons, hsp, decide_false, Bool.false_eq_true,
+      ↓reduceIte, List.isEmpty_cons]
+    unfold scanKey
+    have hcolon : keyChar ':' = false := by decide
+    have htw : List.takeWhile keyChar (k0 :: (kr ++ ':' :: '"' :: r)) = k0 :: kr := by
+      rw [← List.cons_append, List.takeWhile_append_of_pos hall, List.takeWhile_cons]
+      simp [hcolon]
+    have hdw : List.dropWhile keyChar (k0 :: (kr ++ ':' :: '"' :: r)) = ':' :: '"' :: r := by
+      rw [← List.cons_append, List.dropWhile_append_of_pos hall, List.dropWhile_cons]
+      simp [hcolon]
+    simp only [htw, hdw, List.isEmpty_cons, Bool.false_eq_true, ↓reduceIte]
+    unfold scanAfterKey
+    simp [hq]
+
+theorem scanAfterKey_pair' {key t k b rest : List Char} (h : scanAfterKey key t = .pair k b rest) :
+    k = key ∧ ∃ r, t = ':' :: '"' :: r ∧ scanQuoted r = some (b, rest) := by
+  unfold scanAfterKey at h
+  split at h
+  · simp at h
+  · simp at h
+  · rename_i c d r
+    split at h
+    · simp at h
+    · rename_i hc
+      split at h
+      · simp at h
+      · rename_i hd
+        split at h
+        · simp at h
+        · rename_i body rest' hq
+          injection h with h1 h2 h3
+          subst h2; subst h3
+          simp only [ne_eq, Decidable.not_not] at hc hd
+          subst hc; subst hd
+          exact ⟨h1.symm, r, rfl, hq⟩
+
+/-- one round of the scanner only looks at the text up to the closing quote of the pair. -/
+theorem scanPair_local {cs k b rest : List Char} (h : scanPair cs = .pair k b rest) :
+    ∃ pre, cs = pre ++ '"' :: rest ∧ ∀ y, scanPair (pre ++ '"' :: y) = .pair k b y := by
+  have hk := (scanPair_pair h).1
+  unfold scanPair at h
+  simp only at h
+  split at h
+  · simp at h
+  · unfold scanKey at h
+    simp only at h
+    split at h
+    · simp at h
+    · obtain ⟨hkey, r, hr, hq⟩ := scanAfterKey_pair' h
+      obtain ⟨q, hq1, hq2⟩ := scanQ_local r false b rest hq
+      have hsps : AllSpace (List.takeWhile (fun c => decide (c = ' ')) cs) :=
+        fun c hc => of_decide_eq_true (takeWhile_mem _ cs c hc)
+      have e1 : cs = List.takeWhile (fun c => decide (c = ' ')) cs ++
+          List.dropWhile (fun c => decide (c = ' ')) cs := (List.takeWhile_append_dropWhile).symm
+      have e2 : List.dropWhile (fun c => decide (c = ' ')) cs = k ++ ':' :: '"' :: (q ++ '"' :: rest) := by
+        rw [← hq1, ← hr, hkey]
+        exact (List.takeWhile_append_dropWhile).symm
+      refine ⟨List.takeWhile (fun c => decide (c = ' ')) cs ++ k ++ ':' :: '"' :: q, ?_, ?_⟩
+      · rw [e2] at e1
+        simp only [List.append_assoc, List.cons_append]
+        exact e1
+      · intro y
+        have : List.takeWhile (fun c => decide (c = ' ')) cs ++ k ++ ':' :: '"' :: q ++ '"' :: y =
+            List.takeWhile (fun c => decide (c = ' ')) cs ++ (k ++ ':' :: '"' :: (q ++ '"' :: y)) := by
+          simp
+        rw [this, scanPair_spaces_append hsps]
+        exact scanPair_key_colon hk (hq2 y)
+
+def NoTrail (o : List Char) : Prop := ∀ o', o ≠ o' ++ [' ']
+
+theorem quote_ne_space : ('"' : Char) ≠ ' ' := by decide
+
+/-- structtag reads the old text (trailing spaces removed) followed by a space
+and more tags as the old tags followed by the new ones. -/
+theorem parseFull_append_tail : ∀ (N : Nat) (cs : List Char), cs.length < N → ∀ (ts : Tags),
+    parseFull cs = .ok ts → ∀ (o sp : List Char), cs = o ++ sp → AllSpace sp → NoTrail o →
+    ∀ (tail : List Char) (ts2 : Tags), parseFull tail = .ok ts2 →
+    parseFull (o ++ ' ' :: tail) = .ok (ts ++ ts2) := by
+  intro N
+  induction N with
+  | zero => intro cs hl; exact absurd hl (Nat.not_lt_zero _)
+  | succ N ih =>
+    intro cs hl ts h o sp hcs hsp hnt tail ts2 ht
+    rcases parseFull_inv h with ⟨hd, e⟩ | ⟨k, b, rest, v, name, opts, ts', hs, hv, hsplit, hr, e⟩
+    · subst e
+      have hall := scanPair_done hd
+      have ho : o = [] := by
+        rcases List.eq_nil_or_concat o with ho | ⟨o', c, ho⟩
+        · exact ho
+        · exfalso
+          rw [List.concat_eq_append] at ho
+          have hc : c = ' ' := hall c (by
+            rw [hcs, ho]
+            exact List.mem_append_left _ (List.mem_append_right _ (List.mem_singleton.mpr rfl)))
+          exact hnt o' (by rw [ho, hc])
+      subst ho
+      have : parseFull ([] ++ ' ' :: tail) = parseFull tail :=
+        parseFull_spaces_append (sp := [' ']) (fun c hc => List.mem_singleton.mp hc) tail
+      rw [this, ht]; rfl
+    · obtain ⟨pre, hpre, hloc⟩ := scanPair_local hs
+      have hlen := (scanPair_pair hs).2
+      rw [hcs] at hpre
+      rcases List.append_eq_append_iff.mp hpre with ⟨a', _, hsp'⟩ | ⟨c', ho, hrest⟩
+      · exfalso
+        have := hsp '"' (by rw [hsp']; exact List.mem_append_right _ (List.mem_cons_self ..))
+        exact quote_ne_space this
+      · cases c' with
+        | nil =>
+          exfalso
+          simp only [List.nil_append] at hrest
+          have := hsp '"' (by rw [← hrest]; exact List.mem_cons_self ..)
+          exact quote_ne_space this
+        | cons x c'' =>
+          simp only [List.cons_append, List.cons.injEq] at hrest
+          obtain ⟨hx, hrest⟩ := hrest
+          subst hx
+          have hnt' : NoTrail c'' := by
+            intro o' e
+            exact hnt (pre ++ '"' :: o') (by rw [ho, e]; simp)
+          have ih' := ih rest (by omega) ts' hr c'' sp hrest hsp hnt' tail ts2 ht
+          have hgoal : o ++ ' ' :: tail = pre ++ '"' :: (c'' ++ ' ' :: tail) := by rw [ho]; simp
+          rw [hgoal, parseFull_pair (hloc _) hv hsplit ih', e]
+          rfl
+
+theorem trim_spec (cs : List Char) :
+    ∃ sp, cs = trimRightSpaces cs ++ sp ∧ AllSpace sp ∧ NoTrail (trimRightSpaces cs) := by
+  unfold trimRightSpaces
+  refine ⟨(cs.reverse.takeWhile (fun c => decide (c = ' '))).reverse, ?_, ?_, ?_⟩
+  · rw [← List.reverse_append, List.takeWhile_append_dropWhile, List.reverse_reverse]
+  · intro c hc
+    exact of_decide_eq_true (takeWhile_mem _ cs.reverse c (List.mem_reverse.mp hc))
+  · intro o' e
+    have : List.dropWhile (fun c => decide (c = ' ')) cs.reverse = ' ' :: o'.reverse := by
+      have := congrArg List.reverse e
+      simpa using this
+    have := dropWhile_head _ _ _ _ this
+    simp at this
+
+theorem goIsSpace_quote : goIsSpace '"' = false := by decide
+
+/-- a tag whose text is blank in the sense of `strings.TrimSpace` has no pair. -/
+theorem parseFull_blank {o sp : List Char} {ts : Tags} (h : parseFull (o ++ sp) = .ok ts)
+    (hsp : AllSpace sp) (hb : o.all goIsSpace = true) : ts = [] := by
+  rcases parseFull_inv h with ⟨_, e⟩ | ⟨k, b, rest, _, _, _, _, hs, _⟩
+  · exact e
+  · exfalso
+    obtain ⟨pre, hpre, _⟩ := scanPair_local hs
+    have hm : '"' ∈ o ++ sp := by rw [hpre]; simp
+    simp only [List.mem_append] at hm
+    rcases hm with hm | hm
+    · have := List.all_eq_true.mp hb _ hm
+      rw [goIsSpace_quote] at this; simp at this
+    · exact quote_ne_space (hsp _ hm)
+
+theorem parse_plencTag {n : String} (hn : WFTag (plencTag n)) :
+    parseFull (Tags.render [plencTag n]).toList = .ok [plencTag n] := by
+  have h := extractTags_render (ts := [plencTag n]) (fun t ht => by
+    simp only [List.mem_cons, List.not_mem_nil, or_false] at ht; subst ht; exact hn)
+  rw [extractTags_eq_full] at h
+  simpa [plencTag_norm] using h
+
+/-- re-reading a tag literal the tool has just extended: the old tags, then the plenc tag. -/
 theorem extractTags_setTag {f : Field} {tags : Tags} {n : String}
-    (hw : WFTags tags) (hn : WFTag (plencTag n)) (hg : Tags.get tags "plenc" = none) :
-    (setTag f tags n).rawTag = some (Tags.render (tags ++ [plencTag n])) ∧
-    extractTags (setTag f tags n).rawTag = .ok (tags.map Tag.norm ++ [plencTag n]) := by
-  have hs : Tags.set tags (plencTag n) = tags ++ [plencTag n] :=
-    Tags.set_of_get_none (t := plencTag n) plenc_ne_empty hg
-  have hw' : WFTags (tags ++ [plencTag n]) := by
-    intro t ht
-    simp only [List.mem_append, List.mem_cons, List.not_mem_nil, or_false] at ht
-    rcases ht with ht | rfl
-    · exact hw t ht
-    · exact hn
-  unfold setTag
-  simp only [hs, true_and]
-  rw [extractTags_render hw']
-  simp [plencTag_norm]
+    (hts : extractTags f.rawTag = .ok tags) (hn : WFTag (plencTag n)) :
+    extractTags (setTag f n).rawTag = .ok (tags ++ [plencTag n]) := by
+  show extractTags (some (appendTag f.rawTag (Tags.render [plencTag n]))) = _
+  cases hr : f.rawTag with
+  | none =>
+    rw [hr] at hts
+    simp only [extractTags, Out.ok.injEq] at hts
+    subst hts
+    simp only [appendTag, List.nil_append]
+    rw [extractTags_eq_full]
+    exact parse_plencTag hn
+  | some old =>
+    rw [hr, extractTags_eq_full] at hts
+    obtain ⟨sp, hcs, hsp, hnt⟩ := trim_spec old.toList
+    unfold appendTag
+    simp only
+    by_cases hb : (trimRightSpaces old.toList).all goIsSpace = true
+    · rw [if_pos hb]
+      rw [hcs] at hts
+      have := parseFull_blank hts hsp hb
+      subst this
+      rw [extractTags_eq_full]
+      exact parse_plencTag hn
+    · rw [if_neg hb, extractTags_eq_full, String.toList_ofList]
+      exact parseFull_append_tail (old.toList.length + 1) old.toList (Nat.lt_succ_self _) tags hts
+        _ sp hcs hsp hnt _ _ (parse_plencTag hn)
 
 theorem get_plenc_after {tags : Tags} {n : String} (hg : Tags.get tags "plenc" = none) :
-    Tags.get (tags.map Tag.norm ++ [plencTag n]) "plenc" = some (plencTag n) := by
-  rw [Tags.get_append_single, Tags.get_map_norm, hg]
+    Tags.get (tags ++ [plencTag n]) "plenc" = some (plencTag n) := by
+  rw [Tags.get_append_single, hg]
   simp [plencTag]
 
+/-- the old text is kept byte for byte, up to trailing spaces: the new literal is
+the plenc tag alone (no or blank old text) or the old text without its trailing
+spaces, one space, the plenc tag. -/
+theorem setTag_text (f : Field) (n : String) :
+    (setTag f n).names = f.names ∧ (setTag f n).embeddedName = f.embeddedName ∧
+    ∃ new, (setTag f n).rawTag = some new ∧
+      (((f.rawTag = none ∨ ∃ old, f.rawTag = some old ∧ (trimRightSpaces old.toList).all goIsSpace = true) ∧
+          new = Tags.render [plencTag n]) ∨
+       (∃ old sp, f.rawTag = some old ∧ old.toList = trimRightSpaces old.toList ++ sp ∧ AllSpace sp ∧
+          new.toList = trimRightSpaces old.toList ++ ' ' :: (Tags.render [plencTag n]).toList)) := by
+  refine ⟨rfl, rfl, _, rfl, ?_⟩
+  cases hr : f.rawTag with
+  | none => exact Or.inl ⟨Or.inl rfl, rfl⟩
+  | some old =>
+    obtain ⟨sp, hcs, hsp, _⟩ := trim_spec old.toList
+    by_cases hb : (trimRightSpaces old.toList).all goIsSpace = true
+    · left
+      refine ⟨Or.inr ⟨old, rfl, hb⟩, ?_⟩
+      simp only [appendTag, hb, ↓reduceIte]
+    · right
+      refine ⟨old, sp, rfl, hcs, hsp, ?_⟩
+      simp only [appendTag, hb, Bool.false_eq_true, ↓reduceIte, String.toList_ofList]
+
+/-- `plenc:"N"` as the tool prints it -/
+theorem render_plencTag (n : String) :
+    (Tags.render [plencTag n]).toList = "plenc".toList ++ ':' :: '"' :: (quoteChars n.toList ++ ['"']) := by
+  unfold Tags.render
+  rw [String.toList_ofList]
+  simp [renderChars, Tag.render, Tag.value, plencTag, joinComma]
 /-! ## what can be observed on a field -/
 
 /-- the field carries a readable tag with a `plenc` key -/
@@ -1045,11 +1438,11 @@ theorem classify_fine {fl : Flags} {f : Field} (h : (classify fl f).status = .fi
 /-- a field the tool has just tagged is left alone by the next run. -/
 theorem classify_setTag {fl : Flags} {f : Field} {tags : Tags} {ex : Bool} {n : String}
     (h : classify fl f = .add tags ex) (hn : WFTag (plencTag n)) :
-    classify fl (setTag f tags n) = .skip := by
+    classify fl (setTag f n) = .skip := by
   obtain ⟨hl, hts, hg, _, name, hname, hp⟩ := classify_add h
-  have hfn : fieldName (setTag f tags n) = .ok name := hname
-  have hnames : (setTag f tags n).names = f.names := rfl
-  have hx := (extractTags_setTag (f := f) (extractTags_wf hts) hn hg).2
+  have hfn : fieldName (setTag f n) = .ok name := hname
+  have hnames : (setTag f n).names = f.names := rfl
+  have hx := extractTags_setTag hts hn
   unfold classify
   rw [hfn]
   simp only [hp, Bool.false_eq_true, ↓reduceIte, hnames, show ¬ f.names.length > 1 by omega, hx,
@@ -1057,25 +1450,22 @@ theorem classify_setTag {fl : Flags} {f : Field} {tags : Tags} {ex : Bool} {n : 
 
 theorem hasPlenc_setTag {f : Field} {tags : Tags} {n : String}
     (hts : extractTags f.rawTag = .ok tags) (hg : Tags.get tags "plenc" = none)
-    (hn : WFTag (plencTag n)) : hasPlenc (setTag f tags n) = true := by
+    (hn : WFTag (plencTag n)) : hasPlenc (setTag f n) = true := by
   unfold hasPlenc
-  simp only [(extractTags_setTag (f := f) (extractTags_wf hts) hn hg).2, get_plenc_after hg,
-    Option.isSome_some]
+  simp only [extractTags_setTag hts hn, get_plenc_after hg, Option.isSome_some]
 
 theorem plencIndex_setTag_dash {f : Field} {tags : Tags}
     (hts : extractTags f.rawTag = .ok tags) (hg : Tags.get tags "plenc" = none) :
-    plencIndex (setTag f tags "-") = none := by
+    plencIndex (setTag f "-") = none := by
   unfold plencIndex
-  simp only [(extractTags_setTag (f := f) (extractTags_wf hts) wf_plencTag_dash hg).2,
-    get_plenc_after hg]
+  simp only [extractTags_setTag hts wf_plencTag_dash, get_plenc_after hg]
   simp [plencTag]
 
 theorem plencIndex_setTag_itoa {f : Field} {tags : Tags} {v : Int}
     (hts : extractTags f.rawTag = .ok tags) (hg : Tags.get tags "plenc" = none) (hv : InRange v) :
-    plencIndex (setTag f tags (itoa v)) = some v := by
+    plencIndex (setTag f (itoa v)) = some v := by
   unfold plencIndex
-  simp only [(extractTags_setTag (f := f) (extractTags_wf hts) (wf_plencTag_itoa v) hg).2,
-    get_plenc_after hg]
+  simp only [extractTags_setTag hts (wf_plencTag_itoa v), get_plenc_after hg]
   simp [plencTag, itoa_ne_dash, atoi_itoa hv]
 
 /-! ## the first loop -/
@@ -1249,69 +1639,6 @@ theorem classify_no_crash (fl : Flags) (f : Field) :
   | add tags ex => simp [Act.status]
   | stop s => exact ⟨(classify_stop hc).2.1, (classify_stop hc).2.2⟩
 
-theorem structStatus_fine {fl : Flags} {fs : List Field} :
-    structStatus fl fs = .fine ↔
-      (∀ f ∈ fs, status1 f = .fine) ∧ (∀ f ∈ fs, (classify fl f).status = .fine) := by
-  unfold structStatus
-  rw [foldl_merge_fine]
-  simp only [true_and, List.mem_append, List.mem_map]
-  constructor
-  · intro h
-    exact ⟨fun f hf => h _ (Or.inl ⟨f, hf, rfl⟩), fun f hf => h _ (Or.inr ⟨f, hf, rfl⟩)⟩
-  · rintro ⟨h1, h2⟩ s (⟨f, hf, rfl⟩ | ⟨f, hf, rfl⟩)
-    · exact h1 f hf
-    · exact h2 f hf
-
-theorem structStatus_no_crash (fl : Flags) (fs : List Field) :
-    structStatus fl fs ≠ .crash ∧ structStatus fl fs ≠ .hang := by
-  unfold structStatus
-  apply foldl_merge_no_crash _ _ (by simp) (by simp)
-  intro s hs
-  simp only [List.mem_append, List.mem_map] at hs
-  rcases hs with ⟨f, _, rfl⟩ | ⟨f, _, rfl⟩
-  · exact status1_no_crash f
-  · exact classify_no_crash fl f
-
-theorem rewriteStructX_ok {fl : Flags} {fs fs' : List Field} :
-    rewriteStructX fl fs = .ok fs' ↔ structStatus fl fs = .fine ∧ fs' = pass2 fl (maxPlenc fs) fs := by
-  unfold rewriteStructX
-  cases h : structStatus fl fs <;> simp [Status.toOut, eq_comm]
-
-theorem rewriteStruct_ok {fl : Flags} {fs fs' : List Field} :
-    rewriteStruct fl fs = .ok fs' ↔ structStatus fl fs = .fine ∧ fs' = pass2 fl (maxPlenc fs) fs := by
-  rw [← rewriteStructX_ok]
-  unfold rewriteStruct
-  cases rewriteStructX fl fs <;> simp [Out.toRes]
-
-/-! ## the second loop -/
-
-/-- what the second loop does to one field -/
-inductive Step (fl : Flags) (f f' : Field) : Prop where
-  | same (h : ∀ tags ex, classify fl f ≠ .add tags ex) (e : f' = f)
-  | dash (tags : Tags) (h : classify fl f = .add tags true) (e : f' = setTag f tags "-")
-  | num (tags : Tags) (v : Int) (h : classify fl f = .add tags false) (e : f' = setTag f tags (itoa v))
-      (hv : InRange v)
-
-theorem pass2_step (fl : Flags) (fs : List Field) : ∀ m, InRange m →
-    Pointwise (Step fl) fs (pass2 fl m fs) := by
-  induction fs with
-  | nil => intro m _; exact trivial
-  | cons f r ih =>
-    intro m hm
-    unfold pass2
-    split
-    · rename_i tags h
-      exact ⟨Step.dash tags h rfl, ih m hm⟩
-    · rename_i tags h
-      exact ⟨Step.num tags _ h rfl (incr_inRange hm), ih _ (incr_inRange hm)⟩
-    · rename_i h1 h2
-      refine ⟨Step.same ?_ rfl, ih m hm⟩
-      intro tags ex he
-      cases ex
-      · exact h2 tags he
-      · exact h1 tags he
-
-/-- a list all of whose fields are left alone is returned as it is. -/
 theorem pass2_all_skip (fl : Flags) (fs : List Field) (h : ∀ f ∈ fs, classify fl f = .skip) :
     ∀ m, pass2 fl m fs = fs := by
   induction fs with
@@ -1373,23 +1700,175 @@ theorem hasPlenc_false_index {f : Field} (h : hasPlenc f = false) : plencIndex f
     | some t => rw [hg] at h; simp at h
   · rfl
 
-theorem pass2_assigned (fl : Flags) (fs : List Field)
-    (hfine : ∀ f ∈ fs, (classify fl f).status = .fine) :
-    ∀ m, InRange m → m + fs.length < 2 ^ 63 →
-      ∃ k, k ≤ fs.length ∧ assigned fs (pass2 fl m fs) = countUp m k := by
+
+/-! ## the second loop -/
+
+/-- nothing is recorded by the second loop started at `m` -/
+def Fine2 (fl : Flags) (m : Int) (fs : List Field) : Prop := ∀ s ∈ status2 fl m fs, s = .fine
+
+theorem fine2_cons {fl : Flags} {m : Int} {f : Field} {r : List Field} (h : Fine2 fl m (f :: r)) :
+    (classify fl f = .skip ∧ Fine2 fl m r) ∨
+    (∃ tags, classify fl f = .add tags true ∧ Fine2 fl m r) ∨
+    (∃ tags, classify fl f = .add tags false ∧ m < maxFieldIndex ∧ Fine2 fl (m + 1) r) := by
+  unfold Fine2 at h
+  rw [status2] at h
+  cases hc : classify fl f with
+  | skip =>
+    rw [hc] at h
+    exact Or.inl ⟨rfl, fun s hs => h s (by simp [hs])⟩
+  | stop st =>
+    rw [hc] at h
+    have := h st (by simp [Act.status])
+    exact absurd this (classify_stop hc).1
+  | add tags ex =>
+    rw [hc] at h
+    cases ex with
+    | true => exact Or.inr (Or.inl ⟨tags, rfl, fun s hs => h s (by simp [hs])⟩)
+    | false =>
+      simp only at h
+      by_cases hm : m ≥ maxFieldIndex
+      · rw [if_pos hm] at h
+        have := h (.failed .noIndexLeft) (by simp)
+        simp at this
+      · rw [if_neg hm] at h
+        exact Or.inr (Or.inr ⟨tags, rfl, by omega, fun s hs => h s (by simp [hs])⟩)
+
+theorem fine2_classify {fl : Flags} (fs : List Field) : ∀ m, Fine2 fl m fs →
+    ∀ f ∈ fs, (classify fl f).status = .fine := by
+  induction fs with
+  | nil => intro m _ f hf; simp at hf
+  | cons g r ih =>
+    intro m h f hf
+    simp only [List.mem_cons] at hf
+    rcases fine2_cons h with ⟨hc, hr⟩ | ⟨tags, hc, hr⟩ | ⟨tags, hc, _, hr⟩
+    · rcases hf with rfl | hf
+      · rw [hc]; rfl
+      · exact ih m hr f hf
+    · rcases hf with rfl | hf
+      · rw [hc]; rfl
+      · exact ih m hr f hf
+    · rcases hf with rfl | hf
+      · rw [hc]; rfl
+      · exact ih _ hr f hf
+
+theorem fine2_all_skip {fl : Flags} (fs : List Field) (h : ∀ f ∈ fs, classify fl f = .skip) :
+    ∀ m, Fine2 fl m fs := by
+  induction fs with
+  | nil => intro m s hs; simp [status2] at hs
+  | cons f r ih =>
+    intro m s hs
+    rw [status2, h f (by simp)] at hs
+    simp only [List.mem_cons] at hs
+    rcases hs with rfl | hs
+    · rfl
+    · exact ih (fun g hg => h g (by simp [hg])) m s hs
+
+theorem status2_no_crash (fl : Flags) (fs : List Field) : ∀ m, ∀ s ∈ status2 fl m fs,
+    s ≠ .crash ∧ s ≠ .hang := by
+  induction fs with
+  | nil => intro m s hs; simp [status2] at hs
+  | cons f r ih =>
+    intro m s hs
+    rw [status2] at hs
+    split at hs
+    · simp only [List.mem_cons] at hs
+      rcases hs with rfl | hs
+      · simp
+      · exact ih m s hs
+    · split at hs
+      · simp only [List.mem_cons] at hs
+        rcases hs with rfl | hs
+        · simp
+        · exact ih m s hs
+      · simp only [List.mem_cons] at hs
+        rcases hs with rfl | hs
+        · simp
+        · exact ih _ s hs
+    · simp only [List.mem_cons] at hs
+      rcases hs with rfl | hs
+      · exact classify_no_crash fl f
+      · exact ih m s hs
+
+theorem structStatus_fine {fl : Flags} {fs : List Field} :
+    structStatus fl fs = .fine ↔
+      (∀ f ∈ fs, status1 f = .fine) ∧ Fine2 fl (maxPlenc fs) fs := by
+  unfold structStatus Fine2
+  rw [foldl_merge_fine]
+  simp only [true_and, List.mem_append, List.mem_map]
+  constructor
+  · intro h
+    exact ⟨fun f hf => h _ (Or.inl ⟨f, hf, rfl⟩), fun s hs => h s (Or.inr hs)⟩
+  · rintro ⟨h1, h2⟩ s (⟨f, hf, rfl⟩ | hs)
+    · exact h1 f hf
+    · exact h2 s hs
+
+theorem structStatus_no_crash (fl : Flags) (fs : List Field) :
+    structStatus fl fs ≠ .crash ∧ structStatus fl fs ≠ .hang := by
+  unfold structStatus
+  apply foldl_merge_no_crash _ _ (by simp) (by simp)
+  intro s hs
+  simp only [List.mem_append, List.mem_map] at hs
+  rcases hs with ⟨f, _, rfl⟩ | hs
+  · exact status1_no_crash f
+  · exact status2_no_crash fl fs _ s hs
+
+theorem rewriteStructX_ok {fl : Flags} {fs fs' : List Field} :
+    rewriteStructX fl fs = .ok fs' ↔ structStatus fl fs = .fine ∧ fs' = pass2 fl (maxPlenc fs) fs := by
+  unfold rewriteStructX
+  cases h : structStatus fl fs <;> simp [Status.toOut, eq_comm]
+
+theorem rewriteStruct_ok {fl : Flags} {fs fs' : List Field} :
+    rewriteStruct fl fs = .ok fs' ↔ structStatus fl fs = .fine ∧ fs' = pass2 fl (maxPlenc fs) fs := by
+  rw [← rewriteStructX_ok]
+  unfold rewriteStruct
+  cases rewriteStructX fl fs <;> simp [Out.toRes]
+
+theorem inRange_of_bounds {lo v : Int} (h0 : 0 ≤ lo) (h1 : lo < v) (h2 : v ≤ maxFieldIndex) : InRange v := by
+  unfold maxFieldIndex at h2
+  unfold InRange
+  omega
+
+/-- what the second loop (started above `lo ≥ 0`, nothing recorded) does to one field -/
+inductive Step (fl : Flags) (lo : Int) (f f' : Field) : Prop where
+  | same (h : ∀ tags ex, classify fl f ≠ .add tags ex) (e : f' = f)
+  | dash (tags : Tags) (h : classify fl f = .add tags true) (e : f' = setTag f "-")
+  | num (tags : Tags) (v : Int) (h : classify fl f = .add tags false) (e : f' = setTag f (itoa v))
+      (hv : InRange v) (hlo : lo < v) (hhi : v ≤ maxFieldIndex)
+
+theorem Step.mono {fl : Flags} {lo lo' : Int} (h1 : lo' ≤ lo) {f f' : Field}
+    (h : Step fl lo f f') : Step fl lo' f f' := by
+  cases h with
+  | same h e => exact .same h e
+  | dash tags h e => exact .dash tags h e
+  | num tags v h e hv hlo hhi => exact .num tags v h e hv (by omega) hhi
+
+theorem pass2_step (fl : Flags) (fs : List Field) : ∀ m, 0 ≤ m → Fine2 fl m fs →
+    Pointwise (Step fl m) fs (pass2 fl m fs) := by
+  induction fs with
+  | nil => intro m _ _; exact trivial
+  | cons f r ih =>
+    intro m hm hf
+    rw [pass2]
+    rcases fine2_cons hf with ⟨hc, hr⟩ | ⟨tags, hc, hr⟩ | ⟨tags, hc, hlt, hr⟩
+    · rw [hc]
+      exact ⟨Step.same (fun tags ex e => by rw [hc] at e; simp at e) rfl, ih m hm hr⟩
+    · rw [hc]
+      exact ⟨Step.dash tags hc rfl, ih m hm hr⟩
+    · rw [hc]
+      simp only [show ¬ m ≥ maxFieldIndex by omega, ↓reduceIte]
+      refine ⟨Step.num tags _ hc rfl (inRange_of_bounds hm (by omega) (by omega)) (by omega) (by omega), ?_⟩
+      exact Pointwise.imp (fun _ _ => Step.mono (by omega)) (ih (m + 1) (by omega) hr)
+
+theorem pass2_assigned (fl : Flags) (fs : List Field) : ∀ m, 0 ≤ m → Fine2 fl m fs →
+    ∃ k, k ≤ fs.length ∧ assigned fs (pass2 fl m fs) = countUp m k := by
   induction fs with
   | nil => intro m _ _; exact ⟨0, by simp, rfl⟩
   | cons f r ih =>
-    intro m hm hov
-    have ihr := ih (fun g hg => hfine g (by simp [hg]))
-    have hlen : (m + 1) + (r.length : Int) < 2 ^ 63 := by
-      simp only [List.length_cons] at hov; omega
-    have hlen0 : m + (r.length : Int) < 2 ^ 63 := by omega
-    rcases classify_fine (hfine f (by simp)) with hc | ⟨tags, ex, hc⟩
-    · -- left alone
-      obtain ⟨k, hk, hkk⟩ := ihr m hm hlen0
+    intro m hm hf
+    rw [pass2]
+    rcases fine2_cons hf with ⟨hc, hr⟩ | ⟨tags, hc, hr⟩ | ⟨tags, hc, hlt, hr⟩
+    · obtain ⟨k, hk, hkk⟩ := ih m hm hr
       refine ⟨k, by simp; omega, ?_⟩
-      unfold pass2
       rw [hc]
       simp only [assigned]
       split
@@ -1400,22 +1879,145 @@ theorem pass2_assigned (fl : Flags) (fs : List Field)
     · obtain ⟨_, hts, hg, _, _⟩ := classify_add hc
       have hnp : hasPlenc f = false := by
         unfold hasPlenc; rw [hts]; simp [hg]
-      cases ex
-      · -- a number
-        have hinc : incr m = m + 1 := incr_eq (by omega)
-        have hm1 : InRange (m + 1) := hinc ▸ incr_inRange hm
-        obtain ⟨k, hk, hkk⟩ := ihr (m + 1) hm1 hlen
-        refine ⟨k + 1, by simp; omega, ?_⟩
-        unfold pass2
-        rw [hc]
-        simp only [assigned, hnp, Bool.false_eq_true, ↓reduceIte, hinc,
-          plencIndex_setTag_itoa hts hg hm1, hkk, countUp]
-      · -- excluded
-        obtain ⟨k, hk, hkk⟩ := ihr m hm hlen0
-        refine ⟨k, by simp; omega, ?_⟩
-        unfold pass2
-        rw [hc]
-        simp only [assigned, hnp, Bool.false_eq_true, ↓reduceIte, plencIndex_setTag_dash hts hg, hkk]
+      obtain ⟨k, hk, hkk⟩ := ih m hm hr
+      refine ⟨k, by simp; omega, ?_⟩
+      rw [hc]
+      simp only [assigned, hnp, Bool.false_eq_true, ↓reduceIte, plencIndex_setTag_dash hts hg, hkk]
+    · obtain ⟨_, hts, hg, _, _⟩ := classify_add hc
+      have hnp : hasPlenc f = false := by
+        unfold hasPlenc; rw [hts]; simp [hg]
+      have hm1 : InRange (m + 1) := inRange_of_bounds hm (by omega) (by omega)
+      obtain ⟨k, hk, hkk⟩ := ih (m + 1) (by omega) hr
+      refine ⟨k + 1, by simp; omega, ?_⟩
+      rw [hc]
+      simp only [show ¬ m ≥ maxFieldIndex by omega, ↓reduceIte, assigned, hnp, Bool.false_eq_true,
+        plencIndex_setTag_itoa hts hg hm1, hkk, countUp]
+
+/-- all plenc indexes written in a struct, in field order -/
+def idxs (fs : List Field) : List Int := fs.filterMap plencIndex
+
+/-- the rewritten struct has pairwise different indexes if the original had. -/
+theorem pass2_idxs_distinct (fl : Flags) (fs : List Field) : ∀ m, 0 ≤ m → Fine2 fl m fs →
+      (∀ f ∈ fs, ∀ w, plencIndex f = some w → w ≤ m) →
+      (idxs fs).Pairwise (· ≠ ·) →
+      (idxs (pass2 fl m fs)).Pairwise (· ≠ ·) ∧
+      ∀ v ∈ idxs (pass2 fl m fs), v ∈ idxs fs ∨ m < v := by
+  induction fs with
+  | nil => intro m _ _ _ _; simp [idxs, pass2]
+  | cons f r ih =>
+    intro m hm hf hle hpw
+    have hler : ∀ g ∈ r, ∀ w, plencIndex g = some w → w ≤ m := fun g hg => hle g (by simp [hg])
+    have hpwr : (idxs r).Pairwise (· ≠ ·) := by
+      unfold idxs at hpw ⊢
+      rw [List.filterMap_cons] at hpw
+      split at hpw
+      · exact hpw
+      · exact (List.pairwise_cons.mp hpw).2
+    rw [pass2]
+    rcases fine2_cons hf with ⟨hc, hr⟩ | ⟨tags, hc, hr⟩ | ⟨tags, hc, hlt, hr⟩
+    · -- left alone
+      obtain ⟨h1, h2⟩ := ih m hm hr hler hpwr
+      rw [hc]
+      simp only
+      cases hp : plencIndex f with
+      | none =>
+        have e1 : idxs (f :: r) = idxs r := by unfold idxs; rw [List.filterMap_cons, hp]
+        have e2 : idxs (f :: pass2 fl m r) = idxs (pass2 fl m r) := by
+          unfold idxs; rw [List.filterMap_cons, hp]
+        rw [e1, e2]
+        exact ⟨h1, h2⟩
+      | some w =>
+        have e1 : idxs (f :: r) = w :: idxs r := by unfold idxs; rw [List.filterMap_cons, hp]
+        have e2 : idxs (f :: pass2 fl m r) = w :: idxs (pass2 fl m r) := by
+          unfold idxs; rw [List.filterMap_cons, hp]
+        rw [e1] at hpw
+        rw [e1, e2]
+        have hpw' := List.pairwise_cons.mp hpw
+        refine ⟨List.pairwise_cons.mpr ⟨?_, h1⟩, ?_⟩
+        · intro v hv
+          rcases h2 v hv with h | h
+          · exact hpw'.1 v h
+          · have := hle f (by simp) w hp; omega
+        · intro v hv
+          simp only [List.mem_cons] at hv ⊢
+          rcases hv with rfl | hv
+          · exact Or.inl (Or.inl rfl)
+          · rcases h2 v hv with h | h
+            · exact Or.inl (Or.inr h)
+            · exact Or.inr h
+    · -- excluded
+      obtain ⟨_, hts, hg, _, _⟩ := classify_add hc
+      have hnone : plencIndex f = none := by
+        apply hasPlenc_false_index
+        unfold hasPlenc; rw [hts]; simp [hg]
+      have hidx : idxs (f :: r) = idxs r := by
+        unfold idxs; rw [List.filterMap_cons, hnone]
+      obtain ⟨h1, h2⟩ := ih m hm hr hler hpwr
+      rw [hc]
+      simp only
+      rw [hidx]
+      unfold idxs at h1 h2 ⊢
+      rw [List.filterMap_cons, plencIndex_setTag_dash hts hg]
+      exact ⟨h1, h2⟩
+    · -- a number
+      obtain ⟨_, hts, hg, _, _⟩ := classify_add hc
+      have hnone : plencIndex f = none := by
+        apply hasPlenc_false_index
+        unfold hasPlenc; rw [hts]; simp [hg]
+      have hidx : idxs (f :: r) = idxs r := by
+        unfold idxs; rw [List.filterMap_cons, hnone]
+      have hm1 : InRange (m + 1) := inRange_of_bounds hm (by omega) (by omega)
+      obtain ⟨h1, h2⟩ := ih (m + 1) (by omega) hr
+        (fun g hg w hw => by have := hler g hg w hw; omega) hpwr
+      rw [hc]
+      simp only [show ¬ m ≥ maxFieldIndex by omega, ↓reduceIte]
+      rw [hidx]
+      unfold idxs at h1 h2 ⊢
+      rw [List.filterMap_cons, plencIndex_setTag_itoa hts hg hm1]
+      simp only
+      refine ⟨List.pairwise_cons.mpr ⟨?_, h1⟩, ?_⟩
+      · intro v hv
+        rcases h2 v hv with h | h
+        · obtain ⟨g, hg', hgv⟩ := List.mem_filterMap.mp h
+          have := hler g hg' v hgv
+          omega
+        · omega
+      · intro v hv
+        simp only [List.mem_cons] at hv
+        rcases hv with rfl | hv
+        · exact Or.inr (by omega)
+        · rcases h2 v hv with h | h
+          · exact Or.inl h
+          · exact Or.inr (by omega)
+
+theorem pairwise_filterMap_of_lift {α} (g : α → Option Nat) (h : α → Option Int) :
+    ∀ (l : List α), (∀ x ∈ l, ∀ i, g x = some i → h x = some (i : Int)) →
+      (l.filterMap h).Pairwise (· ≠ ·) → (l.filterMap g).Pairwise (· ≠ ·) := by
+  intro l
+  induction l with
+  | nil => intro _ _; simp
+  | cons a r ih =>
+    intro hl hp
+    have ihr := ih (fun x hx => hl x (by simp [hx]))
+    rw [List.filterMap_cons] at hp ⊢
+    cases hg : g a with
+    | none =>
+      simp only
+      split at hp
+      · exact ihr hp
+      · exact ihr (List.pairwise_cons.mp hp).2
+    | some i =>
+      simp only
+      have hh := hl a (by simp) i hg
+      rw [hh] at hp
+      simp only at hp
+      have hp' := List.pairwise_cons.mp hp
+      refine List.pairwise_cons.mpr ⟨?_, ihr hp'.2⟩
+      intro j hj
+      obtain ⟨x, hx, hxj⟩ := List.mem_filterMap.mp hj
+      have := hl x (by simp [hx]) j hxj
+      have hne := hp'.1 (j : Int) (List.mem_filterMap.mpr ⟨x, hx, this⟩)
+      intro e; apply hne; rw [e]
 
 /-! ## reflect.StructTag.Lookup agrees with structtag on tags structtag accepts -/
 
@@ -1553,177 +2155,6 @@ theorem rawValue_ne_empty_of_name {t : Tag} (ht : WFTag t) (h : t.name ≠ "") :
   rw [h2] at this
   exact h this.symm
 
-/-! ## the second loop with bounds on the numbers it hands out -/
-
-inductive StepB (fl : Flags) (lo hi : Int) (f f' : Field) : Prop where
-  | same (h : ∀ tags ex, classify fl f ≠ .add tags ex) (e : f' = f)
-  | dash (tags : Tags) (h : classify fl f = .add tags true) (e : f' = setTag f tags "-")
-  | num (tags : Tags) (v : Int) (h : classify fl f = .add tags false) (e : f' = setTag f tags (itoa v))
-      (hv : InRange v) (hlo : lo < v) (hhi : v ≤ hi)
-
-theorem StepB.mono {fl : Flags} {lo hi lo' hi' : Int} (h1 : lo' ≤ lo) (h2 : hi ≤ hi') {f f' : Field}
-    (h : StepB fl lo hi f f') : StepB fl lo' hi' f f' := by
-  cases h with
-  | same h e => exact .same h e
-  | dash tags h e => exact .dash tags h e
-  | num tags v h e hv hlo hhi => exact .num tags v h e hv (by omega) (by omega)
-
-theorem pass2_stepB (fl : Flags) (fs : List Field) : ∀ m, InRange m → m + fs.length < 2 ^ 63 →
-    Pointwise (StepB fl m (m + fs.length)) fs (pass2 fl m fs) := by
-  induction fs with
-  | nil => intro m _ _; exact trivial
-  | cons f r ih =>
-    intro m hm hov
-    simp only [List.length_cons] at hov ⊢
-    have hinc : incr m = m + 1 := incr_eq (by omega)
-    have hm1 : InRange (m + 1) := hinc ▸ incr_inRange hm
-    have ih0 : Pointwise (StepB fl m (m + ((r.length + 1 : Nat) : Int))) r (pass2 fl m r) :=
-      Pointwise.imp (fun _ _ => StepB.mono (Int.le_refl _) (by omega)) (ih m hm (by omega))
-    have ih1 : Pointwise (StepB fl m (m + ((r.length + 1 : Nat) : Int))) r (pass2 fl (m + 1) r) :=
-      Pointwise.imp (fun _ _ => StepB.mono (by omega) (by omega)) (ih (m + 1) hm1 (by omega))
-    unfold pass2
-    split
-    · rename_i tags h
-      exact ⟨StepB.dash tags h rfl, ih0⟩
-    · rename_i tags h
-      rw [hinc]
-      exact ⟨StepB.num tags _ h rfl hm1 (by omega) (by omega), ih1⟩
-    · rename_i h1 h2
-      refine ⟨StepB.same ?_ rfl, ih0⟩
-      intro tags ex he
-      cases ex
-      · exact h2 tags he
-      · exact h1 tags he
-
-/-- all plenc indexes written in a struct, in field order -/
-def idxs (fs : List Field) : List Int := fs.filterMap plencIndex
-
-/-- the rewritten struct has pairwise different indexes if the original had. -/
-theorem pass2_idxs_distinct (fl : Flags) (fs : List Field)
-    (hfine : ∀ f ∈ fs, (classify fl f).status = .fine) :
-    ∀ m, InRange m → m + fs.length < 2 ^ 63 →
-      (∀ f ∈ fs, ∀ w, plencIndex f = some w → w ≤ m) →
-      (idxs fs).Pairwise (· ≠ ·) →
-      (idxs (pass2 fl m fs)).Pairwise (· ≠ ·) ∧
-      ∀ v ∈ idxs (pass2 fl m fs), v ∈ idxs fs ∨ m < v := by
-  induction fs with
-  | nil => intro m _ _ _ _; simp [idxs, pass2]
-  | cons f r ih =>
-    intro m hm hov hle hpw
-    have ihr := ih (fun g hg => hfine g (by simp [hg]))
-    simp only [List.length_cons] at hov
-    have hinc : incr m = m + 1 := incr_eq (by omega)
-    have hm1 : InRange (m + 1) := hinc ▸ incr_inRange hm
-    have hler : ∀ g ∈ r, ∀ w, plencIndex g = some w → w ≤ m := fun g hg => hle g (by simp [hg])
-    have hpwr : (idxs r).Pairwise (· ≠ ·) := by
-      unfold idxs at hpw ⊢
-      rw [List.filterMap_cons] at hpw
-      split at hpw
-      · exact hpw
-      · exact (List.pairwise_cons.mp hpw).2
-    rcases classify_fine (hfine f (by simp)) with hc | ⟨tags, ex, hc⟩
-    · -- left alone
-      obtain ⟨h1, h2⟩ := ihr m hm (by omega) hler hpwr
-      unfold pass2
-      rw [hc]
-      simp only
-      cases hp : plencIndex f with
-      | none =>
-        have e1 : idxs (f :: r) = idxs r := by unfold idxs; rw [List.filterMap_cons, hp]
-        have e2 : idxs (f :: pass2 fl m r) = idxs (pass2 fl m r) := by
-          unfold idxs; rw [List.filterMap_cons, hp]
-        rw [e1, e2]
-        exact ⟨h1, h2⟩
-      | some w =>
-        have e1 : idxs (f :: r) = w :: idxs r := by unfold idxs; rw [List.filterMap_cons, hp]
-        have e2 : idxs (f :: pass2 fl m r) = w :: idxs (pass2 fl m r) := by
-          unfold idxs; rw [List.filterMap_cons, hp]
-        rw [e1] at hpw
-        rw [e1, e2]
-        have hpw' := List.pairwise_cons.mp hpw
-        refine ⟨List.pairwise_cons.mpr ⟨?_, h1⟩, ?_⟩
-        · intro v hv
-          rcases h2 v hv with h | h
-          · exact hpw'.1 v h
-          · have := hle f (by simp) w hp; omega
-        · intro v hv
-          simp only [List.mem_cons] at hv ⊢
-          rcases hv with rfl | hv
-          · exact Or.inl (Or.inl rfl)
-          · rcases h2 v hv with h | h
-            · exact Or.inl (Or.inr h)
-            · exact Or.inr h
-    · obtain ⟨_, hts, hg, _, _⟩ := classify_add hc
-      have hnone : plencIndex f = none := by
-        apply hasPlenc_false_index
-        unfold hasPlenc; rw [hts]; simp [hg]
-      have hidx : idxs (f :: r) = idxs r := by
-        unfold idxs; rw [List.filterMap_cons, hnone]
-      cases ex
-      · -- a number
-        obtain ⟨h1, h2⟩ := ihr (m + 1) hm1 (by omega)
-          (fun g hg w hw => by have := hler g hg w hw; omega) hpwr
-        unfold pass2
-        rw [hc, hinc]
-        simp only
-        rw [hidx]
-        unfold idxs at h1 h2 ⊢
-        rw [List.filterMap_cons, plencIndex_setTag_itoa hts hg hm1]
-        simp only
-        refine ⟨List.pairwise_cons.mpr ⟨?_, h1⟩, ?_⟩
-        · intro v hv
-          rcases h2 v hv with h | h
-          · obtain ⟨g, hg', hgv⟩ := List.mem_filterMap.mp h
-            have := hler g hg' v hgv
-            omega
-          · omega
-        · intro v hv
-          simp only [List.mem_cons] at hv
-          rcases hv with rfl | hv
-          · exact Or.inr (by omega)
-          · rcases h2 v hv with h | h
-            · exact Or.inl h
-            · exact Or.inr (by omega)
-      · -- excluded
-        obtain ⟨h1, h2⟩ := ihr m hm (by omega) hler hpwr
-        unfold pass2
-        rw [hc]
-        simp only
-        rw [hidx]
-        unfold idxs at h1 h2 ⊢
-        rw [List.filterMap_cons, plencIndex_setTag_dash hts hg]
-        exact ⟨h1, h2⟩
-
-/-- from distinct `Int` indexes to distinct `Nat` indexes of a selection of the fields -/
-theorem pairwise_filterMap_of_lift {α} (g : α → Option Nat) (h : α → Option Int) :
-    ∀ (l : List α), (∀ x ∈ l, ∀ i, g x = some i → h x = some (i : Int)) →
-      (l.filterMap h).Pairwise (· ≠ ·) → (l.filterMap g).Pairwise (· ≠ ·) := by
-  intro l
-  induction l with
-  | nil => intro _ _; simp
-  | cons a r ih =>
-    intro hl hp
-    have ihr := ih (fun x hx => hl x (by simp [hx]))
-    rw [List.filterMap_cons] at hp ⊢
-    cases hg : g a with
-    | none =>
-      simp only
-      split at hp
-      · exact ihr hp
-      · exact ihr (List.pairwise_cons.mp hp).2
-    | some i =>
-      simp only
-      have hh := hl a (by simp) i hg
-      rw [hh] at hp
-      simp only at hp
-      have hp' := List.pairwise_cons.mp hp
-      refine List.pairwise_cons.mpr ⟨?_, ihr hp'.2⟩
-      intro j hj
-      obtain ⟨x, hx, hxj⟩ := List.mem_filterMap.mp hj
-      have := hl x (by simp [hx]) j hxj
-      have hne := hp'.1 (j : Int) (List.mem_filterMap.mpr ⟨x, hx, this⟩)
-      intro e; apply hne; rw [e]
-
 /-! ## facts used by the property file -/
 
 theorem Pointwise.map_eq {α β γ : Type} {R : α → β → Prop} {g : α → γ} {g' : β → γ}
@@ -1765,8 +2196,8 @@ theorem Pointwise.eq_map {α β : Type} {g : α → β} : ∀ {l : List α} {l' 
   | [], _ :: _, h => h.elim
   | _ :: _, [], h => h.elim
 
-theorem setTag_names (f : Field) (tags : Tags) (n : String) :
-    (setTag f tags n).names = f.names ∧ (setTag f tags n).embeddedName = f.embeddedName := ⟨rfl, rfl⟩
+theorem setTag_names (f : Field) (n : String) :
+    (setTag f n).names = f.names ∧ (setTag f n).embeddedName = f.embeddedName := ⟨rfl, rfl⟩
 
 theorem classify_eligible {fl : Flags} {f : Field} {name : String} {tags : Tags}
     (hn : fieldName f = .ok name) (hp : (fl.priv && lowerFirst fl name) = false)
@@ -1792,8 +2223,9 @@ theorem status1_some {f : Field} {raw : String} (h : f.rawTag = some raw) :
 theorem status1_setTag {f : Field} {tags : Tags} {n : String}
     (hts : extractTags f.rawTag = .ok tags) (hg : Tags.get tags "plenc" = none)
     (hn : WFTag (plencTag n)) (hv : n = "-" ∨ ∃ v, atoi n = some v) :
-    status1 (setTag f tags n) = .fine := by
-  obtain ⟨hraw, hx⟩ := extractTags_setTag (f := f) (extractTags_wf hts) hn hg
+    status1 (setTag f n) = .fine := by
+  have hx := extractTags_setTag hts hn
+  have hraw : (setTag f n).rawTag = some (appendTag f.rawTag (Tags.render [plencTag n])) := rfl
   rw [status1_some hraw]
   rw [hraw] at hx
   unfold plencValue
@@ -1805,7 +2237,7 @@ theorem status1_setTag {f : Field} {tags : Tags} {n : String}
     · simp [plencTag, hd, hv, Out.status]
 
 /-- after one run every field is left alone by the next one and its tag is readable. -/
-theorem step_next {fl : Flags} {f f' : Field} (hs : Step fl f f')
+theorem step_next {fl : Flags} {lo : Int} {f f' : Field} (hs : Step fl lo f f')
     (h1 : status1 f = .fine) (h2 : (classify fl f).status = .fine) :
     classify fl f' = .skip ∧ status1 f' = .fine := by
   cases hs with
@@ -1823,12 +2255,6 @@ theorem step_next {fl : Flags} {f f' : Field} (hs : Step fl f f')
     obtain ⟨_, hts, hg, _, _⟩ := classify_add h
     exact ⟨classify_setTag h (wf_plencTag_itoa v),
       status1_setTag hts hg (wf_plencTag_itoa v) (Or.inr ⟨v, atoi_itoa hv⟩)⟩
-
-theorem StepB.toStep {fl : Flags} {lo hi : Int} {f f' : Field} (h : StepB fl lo hi f f') : Step fl f f' := by
-  cases h with
-  | same h e => exact .same h e
-  | dash tags h e => exact .dash tags h e
-  | num tags v h e hv _ _ => exact .num tags v h e hv
 
 theorem foldl_append_toList (rest : List String) : ∀ (n0 : String),
     ∃ s, (rest.foldl (fun a n => a ++ ", " ++ n) n0).toList = n0.toList ++ s := by
